@@ -290,6 +290,7 @@ def prep(ctx, R="R-C03-prep"):
     mids = [n for n in ast.walk(lp) if isinstance(n, ast.Assign) and astq.is_name(n.targets[0], "mid_samp")]
     ctx.check(len(mids) == 1 and astq.eq_text(mids[0].value, "(left_samp+right_samp)//2"), R, init, mids[0] if mids else MISSING(lp),
               "the centre of a filter's support is (left + right) // 2", structural=True)
+    _roll_value(ctx, R, init, lp)
     # energy impulse
     en = [n for n in init.body_nodes() if isinstance(n, ast.If) and astq.text(n.test) == "include_energy"]
     ctx.need(len(en) == 1, R, "energy branch not found in SI __init__")
@@ -314,6 +315,58 @@ def prep(ctx, R="R-C03-prep"):
     fl = ev.env.get("self._frame_length")
     ctx.check(fl is not None and S.compare(fl, S.sub(S.add(ms, ev.env.get("self._frame_shift")), S.ONE), domain={})["verdict"] == "equal", R, init, init.node,
               "frame_length = max_support + frame_shift - 1")
+
+
+def _roll_value(ctx, R, init, lp):
+    """centered style, as a value: every filter is rolled by translation - (left + right) // 2 + 1 with (left, right) its
+    own reported support - whatever kind of bank it comes from (zero-phase banks report asymmetric supports too: the
+    triangular filters have (-K // 2 - 1, K // 2 + 1))"""
+    from .. import scenario as SC
+    prog = ctx.prog
+    what = "centered style: each filter is rolled by translation - (left + right) // 2 + 1 of its own support, for every kind of bank"
+    try:
+        ev = SymEval(prog, init, seed={"frame_style": "centered"}, rename={}, loop_first=True).run()
+    except Exception as e:
+        ctx.error(R, "cannot decide %s: %r" % (what, e))
+        return
+    rolls = [n for n in ast.walk(lp) if isinstance(n, ast.Assign) and isinstance(n.value, ast.Call) and prog.qualify(init.module, n.value.func, init) == "numpy.roll"
+             and len(n.value.args) == 2]
+    seen = 0
+    for r in rolls:
+        try:
+            env, _ = ev.at(r)
+            got = ev.eval_at(r, r.value.args[1])
+        except Exception:
+            continue  # the other style's roll
+        seen += 1
+        bank = env.get("bank")
+        tr = env.get("self._translation")
+        if bank is None or tr is None or not isinstance(lp.target, ast.Name):
+            ctx.error(R, "cannot decide %s: bank / translation not bound at the roll" % what)
+            return
+        sup = S.call("getitem", S.call(".supports", bank), S.sym(lp.target.id))
+        want = S.add(S.sub(tr, S.floordiv(S.add(S.call("getitem", sup, S.ZERO), S.call("getitem", sup, S.ONE)), S.lift(2))), S.ONE)
+        free = (S.call(".is_zero_phase", bank), S.call(".is_real", bank), S.call(".is_analytic", bank))
+        try:
+            alts = list(cc.strip_cond(got))
+        except Exception:
+            alts = None
+        if alts is None or any(t not in free for tests, _ in alts for _, t in tests):
+            ctx.error(R, "cannot decide %s: the shift depends on %s" % (what, S.show(got)[:160]))
+            return
+        for tests, leaf in alts:
+            v, info = SC.same_value(leaf, want)
+            if v == "equal":
+                continue
+            sc = ", ".join("%s is %s" % (S.show(t).split("(")[0].lstrip("."), l == "T") for l, t in tests) or "every bank"
+            if v == "differ" and not S.has_unknown(leaf):
+                ctx.bad(R, init, r, "[%s] the filter is rolled by %s ; documented: %s" % (sc, S.show(leaf)[:200], S.show(want)[:200]), what, robust=True)
+            else:
+                ctx.error(R, "cannot decide [%s] %s: %s" % (sc, what, S.show(leaf)[:160]))
+            return
+        ctx.ok(R, init.loc(r), what, "shift value compared in %d alternative(s)" % len(alts))
+    if not seen:
+        ctx.error(R, "cannot decide %s: no np.roll reached in the centered style" % what)
 
 
 def power(ctx, R="R-C03-power"):
